@@ -19,7 +19,7 @@ use crate::ops_dom::err_class;
 use std::collections::HashMap;
 use std::panic::{catch_unwind, AssertUnwindSafe};
 use xml_dom::{
-    AsNode, Attr, AttrMut, CharacterData, CharacterDataMut, Context, Document, DocumentMut, Element, ElementMut,
+    AsNode, Attr, AttrMut, CharacterData, CharacterDataMut, Context, Document, DocumentMut, DocumentType, Element, ElementMut,
     NamedNodeMap, NamedNodeMapMut, Node, NodeList, NodeMut, NodeType, ProcessingInstruction, ProcessingInstructionMut, TextMut,
     XmlDocument, XmlNode,
 };
@@ -239,6 +239,50 @@ fn monitors(st: &St, exprs: &[String]) -> String {
     }
     if ne > 1 || nt > 1 {
         bad.push(format!("document has {} elements and {} doctypes", ne, nt));
+    }
+    // another view of the same tree: getElementsByTagName("*") lists the elements below the document in pre-order
+    {
+        fn pre(n: &XmlNode, out: &mut Vec<usize>, depth: usize) {
+            if depth > 300 {
+                return;
+            }
+            let l = n.child_nodes();
+            for i in 0..l.length() {
+                if let Some(k) = l.item(i) {
+                    if k.node_type() == NodeType::Element {
+                        out.push(k.id());
+                    }
+                    pre(&k, out, depth + 1);
+                }
+            }
+        }
+        let mut walk: Vec<usize> = vec![];
+        pre(&root, &mut walk, 0);
+        let list = st.doc.get_elements_by_tag_name("*");
+        let got: Vec<usize> = (0..list.length()).filter_map(|i| list.item(i)).map(|x| x.id()).collect();
+        if got != walk {
+            bad.push(format!("get_elements_by_tag_name(*) lists {:?}, the child lists give {:?}", got, walk));
+        }
+    }
+    // the entity and notation maps of the document type are read-only: NO_MODIFICATION_ALLOWED_ERR, nothing changes
+    for i in 0..l.length() {
+        if let Some(XmlNode::DocumentType(y)) = l.item(i) {
+            let en = y.entities();
+            let no = y.notations();
+            let (le, ln) = (en.length(), no.length());
+            let mut rs: Vec<String> = vec![];
+            rs.push(en.remove_named_item("e").map(|_| "ok".to_string()).unwrap_or_else(|er| err_class(&er)));
+            rs.push(no.remove_named_item("n").map(|_| "ok".to_string()).unwrap_or_else(|er| err_class(&er)));
+            if let Some(it) = en.item(0) {
+                rs.push(en.set_named_item(it).map(|_| "ok".to_string()).unwrap_or_else(|er| err_class(&er)));
+            }
+            if let Some(it) = no.item(0) {
+                rs.push(no.set_named_item(it).map(|_| "ok".to_string()).unwrap_or_else(|er| err_class(&er)));
+            }
+            if rs.iter().any(|r| r != "nomod") || en.length() != le || no.length() != ln {
+                bad.push(format!("entity / notation map of the document type is not read-only: {:?}", rs));
+            }
+        }
     }
     // C14: keys of attached nodes non-zero, strictly increasing along the walk
     let mut obad: Vec<String> = vec![];
